@@ -38,6 +38,7 @@ static CO_ERR COCSdoFinishDownloadSegmented(CO_CSDO *csdo);
 static void   COCSdoAbort                  (CO_CSDO *csdo, uint32_t err);
 static void   COCSdoTransferFinalize       (CO_CSDO *csdo);
 static void   COCSdoTimeout                (void *parg);
+static uint32_t COCSdoGetTicks             (CO_CSDO *csdo, uint32_t time);
 
 /******************************************************************************
 * PRIVATE FUNCTIONS
@@ -201,6 +202,26 @@ static void COCSdoTimeout(void *parg)
     }
 }
 
+static uint32_t COCSdoGetTicks(CO_CSDO *csdo, uint32_t time)
+{
+    CO_TMR   *tmr = &(csdo->Node->Tmr);
+    uint32_t  sec = time / 1000u;
+    uint32_t  secTicks;
+    uint32_t  ticks;
+
+    /* the time argument of COTmrGetTicks() is limited to 16bit:
+     * split off the seconds of the timeout given in milliseconds
+     */
+    ticks    = COTmrGetTicks(tmr, (uint16_t)(time % 1000u), CO_TMR_UNIT_1MS);
+    secTicks = COTmrGetTicks(tmr, (uint16_t)1000u, CO_TMR_UNIT_1MS);
+    if ((sec > 0u) && (secTicks > ((0xFFFFFFFFu - ticks) / sec))) {
+        ticks = 0xFFFFFFFFu;
+    } else {
+        ticks += secTicks * sec;
+    }
+    return (ticks);
+}
+
 static CO_ERR COCSdoUploadExpedited(CO_CSDO *csdo)
 {
     CO_ERR  result = CO_ERR_SDO_SILENT;
@@ -259,7 +280,7 @@ static CO_ERR COCSdoInitUploadSegmented(CO_CSDO *csdo)
 
         /* refresh timer */
         (void)COTmrDelete(&(csdo->Node->Tmr), csdo->Tfer.Tmr);
-        ticks = COTmrGetTicks(&(csdo->Node->Tmr), csdo->Tfer.Tmt, CO_TMR_UNIT_1MS);
+        ticks = COCSdoGetTicks(csdo, csdo->Tfer.Tmt);
         csdo->Tfer.Tmr = COTmrCreate(&(csdo->Node->Tmr), ticks, 0, &COCSdoTimeout, csdo);
 
         (void)COIfCanSend(&csdo->Node->If, &frm);
@@ -305,7 +326,7 @@ static CO_ERR COCSdoUploadSegmented(CO_CSDO *csdo)
 
             /* refresh timer */
             (void)COTmrDelete(&(csdo->Node->Tmr), csdo->Tfer.Tmr);
-            ticks = COTmrGetTicks(&(csdo->Node->Tmr), csdo->Tfer.Tmt, CO_TMR_UNIT_1MS);
+            ticks = COCSdoGetTicks(csdo, csdo->Tfer.Tmt);
             csdo->Tfer.Tmr = COTmrCreate(&(csdo->Node->Tmr), ticks, 0, &COCSdoTimeout, csdo);
 
             (void)COIfCanSend(&csdo->Node->If, &frm);
@@ -360,7 +381,7 @@ static CO_ERR COCSdoInitDownloadSegmented(CO_CSDO *csdo)
 
         /* refresh timer */
         (void)COTmrDelete(&(csdo->Node->Tmr), csdo->Tfer.Tmr);
-        ticks = COTmrGetTicks(&(csdo->Node->Tmr), csdo->Tfer.Tmt, CO_TMR_UNIT_1MS);
+        ticks = COCSdoGetTicks(csdo, csdo->Tfer.Tmt);
         csdo->Tfer.Tmr = COTmrCreate(&(csdo->Node->Tmr), ticks, 0, &COCSdoTimeout, csdo);
 
         (void)COIfCanSend(&csdo->Node->If, &frm);
@@ -413,7 +434,7 @@ static CO_ERR COCSdoDownloadSegmented(CO_CSDO *csdo)
 
          /* refresh timer */
         (void)COTmrDelete(&(csdo->Node->Tmr), csdo->Tfer.Tmr);
-        ticks = COTmrGetTicks(&(csdo->Node->Tmr), csdo->Tfer.Tmt, CO_TMR_UNIT_1MS);
+        ticks = COCSdoGetTicks(csdo, csdo->Tfer.Tmt);
         csdo->Tfer.Tmr = COTmrCreate(&(csdo->Node->Tmr), ticks, 0, &COCSdoTimeout, csdo);
 
         (void)COIfCanSend(&csdo->Node->If, &frm);
@@ -622,7 +643,7 @@ CO_ERR COCSdoRequestUpload(CO_CSDO *csdo,
     CO_SET_BYTE(&frm, csdo->Tfer.Sub, 3u);
     CO_SET_LONG(&frm, 0,              4u);
 
-    ticks = COTmrGetTicks(&(csdo->Node->Tmr), timeout, CO_TMR_UNIT_1MS);
+    ticks = COCSdoGetTicks(csdo, timeout);
     csdo->Tfer.Tmr = COTmrCreate(&(csdo->Node->Tmr), ticks, 0, &COCSdoTimeout, csdo);
 
     (void)COIfCanSend(&csdo->Node->If, &frm);
@@ -706,7 +727,7 @@ CO_ERR COCSdoRequestDownload(CO_CSDO *csdo,
     CO_SET_WORD(&frm, csdo->Tfer.Idx, 1u);
     CO_SET_BYTE(&frm, csdo->Tfer.Sub, 3u);
 
-    ticks = COTmrGetTicks(&(csdo->Node->Tmr), timeout, CO_TMR_UNIT_1MS);
+    ticks = COCSdoGetTicks(csdo, timeout);
     csdo->Tfer.Tmr = COTmrCreate(&(csdo->Node->Tmr), ticks, 0, &COCSdoTimeout, csdo);
 
     (void)COIfCanSend(&csdo->Node->If, &frm);
